@@ -87,6 +87,8 @@ func checkC07(c *Ctx) {
 	c.Rule("R7.4", "wrapper cores forward With to the wrapped core with the same fields and copy every other field", 5)
 	c.Rule("R7.5", "names: empty segment returns the receiver, join with \".\", name copied into the entry", 3)
 	c.Rule("R7.6", "lazy With: fields evaluated exactly once, before every delegation", 3)
+	c.Rule("R7.13", "pooled buffers are released at most once (after a double release two sibling loggers build their contexts in one buffer)", 3)
+	c.As(map[string]string{"R8.4": "R7.13"}, func() { c8SingleRelease(c) })
 
 	mut := c.mutatesRecv()
 	exemptMut := map[string]string{}
